@@ -17,7 +17,7 @@
   (Spec/Lift.lean: `expectedDeser` = constructor ∘ `liftDoc`): it
   is evaluated by the driver on every case as the oracle for the real Deserializer; its agreement
   with `deserialize` is proved on the exact fragment (`deserialize_exact_partial`: scalars, enums,
-  Array/Deque/Tuple without uniqueItems, nested classes, any depth) and checked by correspondence
+  Array/Deque/Tuple (uniqueItems over plain scalars), nested classes, any depth) and checked by correspondence
   elsewhere.
 -/
 import TypedpyModel.Lemmas.DeserErr
@@ -106,7 +106,8 @@ theorem extra_keys_need_additional_properties (O : Oracles) (c : ClassOpts)
   simp [construct, vConstruct, hb]
 
 /-- **C06, "exactly the images" (partial: the exact fragment)**: for every class of the fragment
-    `exactDecl` — scalars with every constraint, enums, Array / Deque / Tuple without uniqueItems,
+    `exactDecl` — scalars with every constraint, enums, Array / Deque / Tuple (uniqueItems only over
+    plain scalar items),
     nested Structure classes, at any depth — every JSON document `d` and every flag setting, the
     Deserializer succeeds with result `x` exactly when `d` is the documented JSON form of keyword
     arguments that the constructor accepts, and `x` is the instance the constructor builds from them -/
@@ -199,7 +200,8 @@ theorem exact_fragment_example :
     exactDecl exCls = true
     ∧ strictJson (.dict [(.str "a", .list [.str "RED"]), (.str "b", .int 3)]) = true
     ∧ exactDecl (.struct { name := "Outer", required := ["n"], accepts := ["Outer"] }
-        [("n", exCls), ("t", .tuplePos [.integer {}, .string none (some 3) none] false)] []) = true := by
+        [("n", exCls), ("t", .tuplePos [.integer {}, .string none (some 3) none] false),
+         ("u", .seqOf .deque (.string none none none) { uniq := true, min := some 1 })] []) = true := by
   decide
 
 end Typedpy.C06
